@@ -134,6 +134,7 @@ func VH_C11_preCancelled() {
 		})
 	_, err := Run(ctx, b, NewSharedStore())
 	vAssert(starts == 0, "pre-cancelled-batch-starts-no-item")
+	vCover("pre-cancelled-run-ended") // either alternative of the property is fine: which one is taken is not required
 	if err != nil {
 		vCover("run-returns-error")
 		vAssert(errors.Is(err, ctx.Err()), "error-matches-the-contexts-error")
